@@ -34,8 +34,12 @@ import logging  # noqa: E402
 
 import logzero  # noqa: E402
 
-# the package resets the level to INFO at import: mute afterwards
+# the package resets the level to INFO at import: mute afterwards.  Removing the
+# handlers keeps the library's logging calls running (message construction is
+# real code) while nothing reaches the terminal even when debug=True raises the level.
 logzero.loglevel(logging.CRITICAL)
+logzero.logger.handlers = [logging.NullHandler()]
+logzero.logger.propagate = False
 
 from comb_spec_searcher.class_queue import DefaultQueue  # noqa: E402
 from comb_spec_searcher.rule_db import (  # noqa: E402
